@@ -45,6 +45,9 @@ func (eq equator) equalMessage(mx, my pref.Message) bool {
 	nx := 0
 	equal := true
 	mx.Range(func(fd pref.FieldDescriptor, vx pref.Value) bool {
+		if ignoredField(fd) {
+			return true // also when only one of the two messages has it
+		}
 		nx++
 		vy := my.Get(fd)
 		equal = my.Has(fd) && eq.equalField(fd, vx, vy)
@@ -55,6 +58,9 @@ func (eq equator) equalMessage(mx, my pref.Message) bool {
 	}
 	ny := 0
 	my.Range(func(fd pref.FieldDescriptor, vx pref.Value) bool {
+		if ignoredField(fd) {
+			return true
+		}
 		ny++
 		return true
 	})
@@ -63,6 +69,11 @@ func (eq equator) equalMessage(mx, my pref.Message) bool {
 	}
 
 	return eq.equalUnknown(mx.GetUnknown(), my.GetUnknown())
+}
+
+// ignoredField reports whether fd is PullResponse.Change.change_time, which never takes part in a comparison.
+func ignoredField(fd pref.FieldDescriptor) bool {
+	return fd.Name() == "change_time" && fd.ContainingMessage().Name() == "Change"
 }
 
 // equalField compares two fields.
